@@ -22,6 +22,24 @@ def check_dag(parents):
             for j in par:
                 if pos[j] > pos[i]:
                     probs.append(("child-before-parent", f"{what}: operator {i} visited before its parent {j}: order {ids}"))
+    # iteration interleaved with construction: after every new_operator the pipeline built so far
+    # must iterate as a permutation of its operators so far (a builder may look at a DAG while it grows)
+    from eudoxia.workload.pipeline import Pipeline as _P, Segment as _S
+    from eudoxia.utils import Priority as _Pr
+    boot.fresh_execution()
+    g = _P("g", _Pr.BATCH_PIPELINE)
+    gops = []
+    for k, par in enumerate(parents):
+        o = g.new_operator([gops[j] for j in par] or None)
+        o.add_segment(_S(baseline_cpu_seconds=1, storage_read_gb=0))
+        gops.append(o)
+        seen = [gops.index(x) if x in gops else None for x in g.values]
+        if sorted(seen, key=lambda x: (x is None, x)) != list(range(k + 1)):
+            probs.append(("stale-iteration-while-growing", f"after adding operator {k}: iteration visited {seen}, the pipeline has operators 0..{k}"))
+            break
+        if len(g.values) != k + 1:
+            probs.append(("len", f"after adding operator {k}: len={len(g.values)}"))
+            break
     first = list(p.values)
     topo(first, "first iteration")
     second = list(p.values)
